@@ -72,6 +72,17 @@ def allowance(nbytes, a=20000, b=400):
     return a + b * nbytes
 
 
+def _where(tb):
+    """innermost yabgp frame of the traceback: where the work was being spent"""
+    loc = '?'
+    while tb is not None:
+        fn = tb.tb_frame.f_code.co_filename
+        if fn.startswith(_PREFIX):
+            loc = '%s:%s' % (fn[len(_PREFIX):], tb.tb_frame.f_code.co_name)
+        tb = tb.tb_next
+    return loc
+
+
 class region(object):
     """with budget.region(limit) as r: ... ; r.used, r.exceeded"""
 
@@ -79,6 +90,7 @@ class region(object):
         self.limit = limit
         self.used = 0
         self.exceeded = False
+        self.where = '?'
 
     def __enter__(self):
         enable()
@@ -89,6 +101,7 @@ class region(object):
         self.used = stop()
         if et is not None and issubclass(et, BudgetExceeded):
             self.exceeded = True
+            self.where = _where(tb)
             return True
         if tripped():
             self.exceeded = True
